@@ -102,7 +102,9 @@ def main(tier, write_baseline=False):
         pool = domain.param_pool(TYPES, docs=["the {name}", "The {name} of it.", "many things, with a comma", "first line\nsecond line of the {name}", "ratio: a to b", "Gr\u00f6\u00dfe des {name} (Ma\u00df)",
                                                   # prose about optionality: only a description that STARTS with the capitalised word is
                                                   # (by a documented heuristic, a known finding) allowed to change the type
-                                                  "optional {name}, in seconds", "the {name}, optional", "Optional {name} of it"])
+                                                  "optional {name}, in seconds", "the {name}, optional", "Optional {name} of it",
+                                                  # no description at all (an interface derived from a bare signature)
+                                                  ""])
         irs = list(domain.irs(1, pool, suffix_defaults=True)) + list(domain.irs(3 if tier == "thorough" else 2, pool, sample=600 if tier == "quick" else 4000, seed=run.seed, suffix_defaults=True))
         irs += [ir for ir in domain.irs(1, pool[:6], suffix_defaults=True, returns=(("typ", "int"), ("doc", "the result")))]
         # word-wrap sweep: descriptions of every length around the wrap column, a defaulted parameter that is not the last one
